@@ -7,6 +7,8 @@ Model/C09_Prims.v (`astate` = _U, _anisotropy, lattice) and Base/C09_GNum.v (gen
     _get_Uij  _set_Uij            Uisoequiv (getter, setter)     Bisoequiv (getter, setter)
     U11..U23, B11..B23            (class-level `property(lambda.., lambda..)` table -> index maps and B/U factors)
     msdLat  msdCart               module constants _BtoU, _UtoB;  Lattice.norm, Lattice.cartesian, Lattice._epsilon
+    __init__  (-> init_Atom: the argument blocks IN SOURCE ORDER; statements touching only xyz/element/label/occupancy are
+               skipped; `raise ValueError` -> None)       __copy__ (-> copy_Atom; must copy _U and xyz)
 
 Recognised Python subset (anything else -> TranslatorRefusal with file:line):
   statements: docstring, `return [e]`, `if/elif/else`, `name = e`, `name op= e` (local), `self._U = e`, `self._U[:] = e`,
@@ -38,7 +40,15 @@ LAT_FIELDS = {
 }
 LAT_PROPS = ["a", "b", "c", "ar", "br", "cr", "ca", "cb", "cg"]          # must be `property(lambda self: self._x)`
 LAT_PLAIN = ["metrics", "base", "normbase", "isotropicunit"]             # must be assigned in setLatPar and setLatBase
-COQTYPE = {"S": "T", "V": "gvec T", "M": "gmat T", "B": "bool", "I": "idx", "L": "latdata T"}
+COQTYPE = {"S": "T", "V": "gvec T", "M": "gmat T", "B": "bool", "I": "idx", "L": "latdata T",
+           "OA": "option (astate T)", "OB": "option bool", "OM": "option (gmat T)", "OS": "option T", "OLP": "option (latdata T)"}
+# constructor arguments: the ADP-relevant ones are parameters of the generated init_Atom (None = argument not given;
+# atype = Some src when it is an Atom); the others only touch xyz/element/label/occupancy
+INIT_ARGS = ["self", "atype", "xyz", "label", "occupancy", "anisotropy", "U", "Uisoequiv", "lattice"]
+INIT_PARAMS = [("atype", "OA"), ("anisotropy", "OB"), ("U", "OM"), ("Uisoequiv", "OS"), ("lattice", "OLP")]
+OPT_INNER = {"OB": "B", "OM": "M", "OS": "S", "OLP": "L", "OA": "A"}
+NON_ADP_ATTRS = ("xyz", "element", "label", "occupancy")
+ADP_WORDS = ("_U", "_anisotropy", "lattice", "anisotropy", "U", "Uisoequiv", "Bisoequiv", "__copy__", "__dict__", "_set_Uij", "_get_Uij")
 IDX = {0: "i0", 1: "i1", 2: "i2"}
 ADP_NAMES = ["U11", "U22", "U33", "U12", "U13", "U23", "B11", "B22", "B33", "B12", "B13", "B23"]
 # parameter types of the translated accessors (names are checked against the source)
@@ -145,6 +155,7 @@ class Translator:
             elif isinstance(st, ast.Assign) and len(st.targets) == 1 and isinstance(st.targets[0], ast.Name) \
                     and st.targets[0].id in ADP_NAMES:
                 self.add_table_entry(st)
+        self.collect_init_copy(cls)
         # Atom.lattice must be a plain attribute (assignment has no side effect on the ADP storage)
         plain = [st for st in cls.body if isinstance(st, ast.Assign) and len(st.targets) == 1 and isinstance(st.targets[0], ast.Name)
                  and st.targets[0].id == "lattice"]
@@ -173,6 +184,37 @@ class Translator:
         self.collect_lattice()
 
     table_src = None
+
+    def collect_init_copy(self, cls):
+        a = "atom.py"
+        f = [st for st in cls.body if isinstance(st, ast.FunctionDef) and st.name == "__init__"]
+        if len(f) != 1:
+            raise TranslatorRefusal("atom.py: Atom.__init__ not found exactly once")
+        f = f[0]
+        if [x.arg for x in f.args.args] != INIT_ARGS or [ast.unparse(d) for d in f.args.defaults] != ["None"] * 8 \
+                or f.args.vararg or f.args.kwarg or f.args.kwonlyargs:
+            refuse(a, f, "signature of Atom.__init__ is not (self, atype=None, xyz=None, label=None, occupancy=None, anisotropy=None, "
+                         "U=None, Uisoequiv=None, lattice=None)")
+        self.units[("Atom", "__init__", "init")] = Unit("Atom", "__init__", "init", INIT_PARAMS, f.body, a)
+        dflt = [st for st in cls.body if isinstance(st, ast.Assign) and len(st.targets) == 1 and isinstance(st.targets[0], ast.Name)
+                and st.targets[0].id == "_anisotropy"]
+        if len(dflt) != 1 or ast.unparse(dflt[0].value) != "False":
+            raise TranslatorRefusal("atom.py: class attribute `_anisotropy = False` not found")
+        # __copy__: recognised as a whole
+        g = [st for st in cls.body if isinstance(st, ast.FunctionDef) and st.name == "__copy__"]
+        if len(g) != 1:
+            raise TranslatorRefusal("atom.py: Atom.__copy__ not found exactly once")
+        g = g[0]
+        if [x.arg for x in g.args.args] != ["self", "target"] or [ast.unparse(d) for d in g.args.defaults] != ["None"]:
+            refuse(a, g, "signature of __copy__ is not (self, target=None)")
+        body = [ast.unparse(st) for st in g.body if not is_doc(st)]
+        want = ["if target is None:\n    target = Atom()\nelif target is self:\n    return target",
+                "target.__dict__.update(self.__dict__)", "target.xyz = numpy.copy(self.xyz)", "target._U = numpy.copy(self._U)", "return target"]
+        if body[:2] != want[:2] or body[-1] != want[-1] or sorted(body[2:-1]) != sorted(want[2:-1]):
+            for w in want:
+                if w not in body:
+                    refuse(a, g, "__copy__ lacks `%s` (attributes copied by reference or not at all)" % w.split("\n")[0])
+            refuse(a, g, "__copy__ is not the understood sequence of statements")
 
     def add_unit(self, cls, name, kind, params, fdef, fn):
         args = [x.arg for x in fdef.args.args]
@@ -317,6 +359,13 @@ class Translator:
             refuse(u.fn, u.body[0], "setter %s returns a value" % u.name)
         selfv = "(s : astate T)" if u.cls == "Atom" else "(self : latdata T)"
         params = " ".join("(%s : %s)" % (p, COQTYPE[t]) for p, t in u.params)
+        if u.kind == "init":
+            # a new object: class defaults _anisotropy = False, lattice = None; _U is assigned by the body
+            u.text = ("Definition init_Atom {T : Type} (C : cctx T) %s : option (astate T) :=\n%s\n  let s := AS (gzero O) false None in\n%s."
+                      % (params, LETS, body))
+            u.busy = False
+            self.order.append(key)
+            return u
         if u.cls == "Atom" and u.writes:
             ret = "astate T" if u.rettype == "N" else "astate T * %s" % COQTYPE[u.rettype]
         else:
@@ -331,6 +380,10 @@ class Translator:
     def ret(self, ctx, typ, text):
         u = ctx["unit"]
         ctx["rets"].append(typ)
+        if u.kind == "init":
+            if typ != "N":
+                refuse(u.fn, u.body[0], "__init__ returns a value")
+            return "Some s"
         if u.cls == "Atom" and u.writes:
             return "s" if typ == "N" else "(s, %s)" % text
         return text
@@ -348,6 +401,10 @@ class Translator:
                 return ind + self.ret(ctx, "N", None)
             pre, (t, x) = self.stmt_expr(st.value, env, ctx)
             return ind + pre + self.ret(ctx, t, x)
+        if u.kind == "init":
+            r = self.init_stmt(st, rest, env, ctx, ind)
+            if r is not None:
+                return r
         if isinstance(st, ast.If):
             # refinement on `self.lattice is None`
             if u.cls == "Atom" and ast.unparse(st.test) in ("self.lattice is None", "self.lattice is not None"):
@@ -366,6 +423,85 @@ class Translator:
             return "%s%sif %s then\n%s\n%selse\n%s" % (ind, pre, c, tb, ind, te)
         line = self.simple(st, env, ctx)
         return ind + line + "\n" + self.block(rest, env, ctx, ind)
+
+    # ---- constructor-only statements ------------------------------------------------------------------
+    @staticmethod
+    def non_adp(st):
+        """True for a statement that only touches xyz / element / label / occupancy."""
+        for n in ast.walk(st):
+            if isinstance(n, ast.Attribute) and n.attr in ADP_WORDS:
+                return False
+            if isinstance(n, ast.Name) and n.id in ("U", "Uisoequiv", "anisotropy", "lattice"):
+                return False
+            if isinstance(n, (ast.Raise, ast.Return)):
+                return False
+        if isinstance(st, ast.If):
+            return all(Translator.non_adp(x) for x in st.body + st.orelse)
+        if isinstance(st, ast.Assign):
+            for t in st.targets:
+                b = t
+                while isinstance(b, ast.Subscript):
+                    b = b.value
+                if not (is_self_attr(b) and b.attr in NON_ADP_ATTRS):
+                    return False
+            return True
+        return False
+
+    @staticmethod
+    def opt_test(t, env):
+        """`X is not None` / `X is None` for an option-typed argument X -> (name, positive?)"""
+        if isinstance(t, ast.Compare) and len(t.ops) == 1 and isinstance(t.left, ast.Name) and env.get(t.left.id, ("",))[0] in OPT_INNER \
+                and isinstance(t.comparators[0], ast.Constant) and t.comparators[0].value is None and isinstance(t.ops[0], (ast.Is, ast.IsNot)):
+            return t.left.id, isinstance(t.ops[0], ast.IsNot)
+        return None
+
+    def init_stmt(self, st, rest, env, ctx, ind):
+        fn = ctx["unit"].fn
+        src = ast.unparse(st)
+        # the copy-constructor block
+        if isinstance(st, ast.If) and ast.unparse(st.test) == "isinstance(atype, Atom)":
+            ok = (len(st.body) == 1 and ast.unparse(st.body[0]) == "atype.__copy__(target=self)" and len(st.orelse) == 1
+                  and isinstance(st.orelse[0], ast.If) and ast.unparse(st.orelse[0].test) == "atype is not None"
+                  and not st.orelse[0].orelse and all(self.non_adp(x) for x in st.orelse[0].body))
+            if not ok or env.get("atype", ("",))[0] != "OA":
+                refuse(fn, st, "copy-constructor block is not `if isinstance(atype, Atom): atype.__copy__(target=self) elif atype is not None: self.element = atype`")
+            return "%slet s := match atype with Some src => copy_Atom C src | None => s end in\n%s" % (ind, self.block(rest, env, ctx, ind))
+        if self.non_adp(st):
+            return self.block(rest, env, ctx, ind)
+        if isinstance(st, ast.If):
+            tests = st.test.values if isinstance(st.test, ast.BoolOp) and isinstance(st.test.op, ast.And) else [st.test]
+            ots = [self.opt_test(t, env) for t in tests]
+            if all(o is not None for o in ots):
+                if len(ots) == 1:
+                    name, pos = ots[0]
+                    inner = OPT_INNER[env[name][0]]
+                    e_some = dict(env)
+                    e_some[name] = (inner, name + "0")
+                    b_some, b_none = (st.body, st.orelse) if pos else (st.orelse, st.body)
+                    ts = self.block(list(b_some) + rest, e_some, ctx, ind + "  ")
+                    tn = self.block(list(b_none) + rest, dict(env), ctx, ind + "  ")
+                    return "%smatch %s with\n%s| Some %s0 =>\n%s\n%s| None =>\n%s\n%send" % (ind, name, ind, name, ts, ind, tn, ind)
+                # conjunction of `is not None` tests guarding a raise
+                if all(pos for _, pos in ots) and not st.orelse and self.raises_valueerror(st.body):
+                    tr = self.block(rest, dict(env), ctx, ind + "  ")
+                    pat = ", ".join("Some _" for _ in ots)
+                    wild = ", ".join("_" for _ in ots)
+                    return "%smatch %s with\n%s| %s => None\n%s| %s =>\n%s\n%send" % (ind, ", ".join(n for n, _ in ots), ind, pat, ind, wild, tr, ind)
+            refuse(fn, st, "unrecognised conditional in __init__: " + ast.unparse(st.test))
+        if isinstance(st, ast.Assign) and len(st.targets) == 1 and is_self_attr(st.targets[0], "lattice"):
+            v = st.value
+            if isinstance(v, ast.Name) and env.get(v.id, ("",))[0] == "L":
+                return "%slet s := set_stlat s (Some %s) in\n%s" % (ind, env[v.id][1], self.block(rest, env, ctx, ind))
+            refuse(fn, st, "unrecognised lattice assignment: " + src)
+        return None
+
+    @staticmethod
+    def raises_valueerror(body):
+        if not body or not isinstance(body[-1], ast.Raise) or body[-1].exc is None:
+            return False
+        e = body[-1].exc
+        name = e.func.id if isinstance(e, ast.Call) and isinstance(e.func, ast.Name) else (e.id if isinstance(e, ast.Name) else None)
+        return name == "ValueError" and all(isinstance(x, ast.Assign) and isinstance(x.value, (ast.Constant, ast.JoinedStr)) for x in body[:-1])
 
     def stmt_expr(self, e, env, ctx):
         """Translate an expression that forms (part of) a statement; returns (prelude, (type, text))."""
@@ -710,6 +846,9 @@ class Translator:
             t, x = E(n.args[0])
             if t in ("V", "M"):
                 return t, x
+        if f == "numpy.zeros" and len(n.args) == 1 and ast.unparse(n.args[0]) == "(3, 3)" \
+                and (not kw or (list(kw) == ["dtype"] and ast.unparse(kw["dtype"]) == "float")):
+            return "M", "(gzero O)"
         if f == "abs" and len(n.args) == 1 and not kw:
             t, x = E(n.args[0])
             if t == "S":
@@ -750,7 +889,7 @@ class Translator:
     def run(self):
         self.collect()
         self.analyse_effects()
-        for key in sorted(self.units, key=lambda k: (k[0] != "Lattice", k[1], k[2])):
+        for key in sorted(self.units, key=lambda k: (k[2] == "init", k[0] != "Lattice", k[1], k[2])):
             self.translate_unit(key)
         out = ["(* GENERATED by translate/c09_atom.py from atom.py and lattice.py - do not edit *)",
                "From Coq Require Import ZArith Bool.", "From DS Require Import Base.C09_GNum Model.C09_Prims.", "",
@@ -762,9 +901,12 @@ class Translator:
         for name, x in self.const_order:
             out.append("Definition c%s {T : Type} (C : cctx T) : T :=\n%s\n  %s." % (name, LETS, x))
         out.append("")
+        out.append("(* Atom.__copy__: target.__dict__.update(self.__dict__) carries flag and lattice, _U and xyz are copied arrays *)")
+        out.append("Definition copy_Atom {T : Type} (C : cctx T) (s : astate T) : astate T := AS (st_U s) (st_aniso s) (st_lat s).")
+        out.append("")
         for key in self.order:
             u = self.units[key]
-            out.append("(* %s.%s (%s)%s *)" % (u.cls, u.name, {"get": "getter", "set": "setter", "meth": "method"}[u.kind],
+            out.append("(* %s.%s (%s)%s *)" % (u.cls, u.name, {"get": "getter", "set": "setter", "meth": "method", "init": "constructor"}[u.kind],
                                              ", writes storage" if u.writes else ""))
             out.append(u.text)
             out.append("")
